@@ -151,7 +151,12 @@ func enteringConds(b *ssa.BasicBlock) []edgeCond {
 		for _, pr := range b.Preds {
 			ifi, ok := pr.Instrs[len(pr.Instrs)-1].(*ssa.If)
 			if !ok {
-				walk(pr, d+1)
+				// only trivial forwarding blocks (a lone jump) are looked through; never a loop latch or a merge with work in it
+				if len(pr.Instrs) == 1 && len(pr.Preds) == 1 {
+					walk(pr, d+1)
+				} else {
+					out = append(out, edgeCond{nil, true})
+				}
 				continue
 			}
 			want := pr.Succs[0] == b
@@ -178,6 +183,10 @@ func (p *Prog) rawTextBranch(b *ssa.BasicBlock) (bool, string) {
 		why := ""
 		for _, ec := range ecs {
 			okEdge := false
+			if ec.cond == nil {
+				all = false
+				continue
+			}
 			if bo, ok := ec.cond.(*ssa.BinOp); ok && bo.Op == token.EQL && ec.want {
 				if s, ok := constString(bo.Y); ok && (s == "script" || s == "style") {
 					okEdge = true
